@@ -53,9 +53,9 @@ PcCrossN(v, w) == RFrac(SumSeq([i \in 1..Len(v) |-> v[i] * w[i]]), SumSeq(v) * S
 
 \* ---- richness
 Chao1(c) == IF Len(c) = 1 \/ c[2] = 0 THEN RFrac(2 * SumSeq(c) + c[1] * (c[1] - 1), 2)
-            ELSE RAdd(R(SumSeq(c)), RFrac(c[1] * c[1], 2 * c[2]))
+            ELSE RAdd(R(SumSeq(c)), RMul(RFrac(c[1], c[2]), RFrac(c[1], 2)))      \* f1^2 / (2 f2), ratio first (32-bit integers)
 Chao2(c) == IF Len(c) = 1 \/ c[2] = 0 THEN NaN
-            ELSE RAdd(R(SumSeq(c)), RFrac(c[1] * c[1], 2 * c[2]))
+            ELSE RAdd(R(SumSeq(c)), RMul(RFrac(c[1], c[2]), RFrac(c[1], 2)))
 \* classical Chao variance  f2 (r^2/2 + r^3 + r^4/4),  r = f1/f2
 VarChao(c) == IF Len(c) = 1 \/ c[2] = 0 THEN NaN
               ELSE RWith(RFrac(c[1], c[2]), LAMBDA r :
